@@ -30,23 +30,41 @@ class Tripwire:
 
 
 # ------------------------------------------------------------------ L11.1
-def l111():
-    ctxt = loop.new_ctxt(Tripwire(), None)
-    blocked = bool(symbool('address_blocked'))
-    ctxt.setBlockList({'6.6.6.6', '6.6.6.7'} if blocked else {'9.9.9.9'})
-    ts = loop.twisted_mod.TwistedServer(ctxt, ('0.0.0.0', 1), install_signals=False)
-    ts.transport = loop.Transport()
+def sym_blocklist():
+    """an arbitrary block list and an arbitrary peer host: two symbolic entries (any non-empty strings), one fixed one;
+    -> (set, host, blocked) where blocked decides whether the host is one of the entries"""
+    from sx import text, values
+    host = text.atom('host', nosep='', nonempty=True)
+    e1 = text.atom('entry1', nosep='', nonempty=True)
+    e2 = text.atom('entry2', nosep='', nonempty=True)
+    if core._rp() is None:
+        bl = values.SxSet([e1, e2, '9.9.9.9'])
+    else:
+        bl = {e1, e2, '9.9.9.9'}
+    blocked = bool(Or(host == e1, host == e2, host == '9.9.9.9'))
+    return bl, host, blocked
+
+
+def sym_datagram():
     form = choose(3, 'form')
     if form == 0:
         n = choose(21, 'short_len')                      # shorter than a header, including empty
-        raw = rope.symbytes('d', n) if n else b''
-    elif form == 1:
-        raw = rope.symbytes('d', 20) + rope.blob('rest', 0, Packet.RECV_SIZE - 20)[0]
-    else:
-        raw = rope.blob('opaque', 0, Packet.RECV_SIZE, declare=20)[0]
+        return rope.symbytes('d', n) if n else b''
+    if form == 1:
+        return rope.symbytes('d', 20) + rope.blob('rest', 0, Packet.RECV_SIZE - 20)[0]
+    return rope.blob('opaque', 0, Packet.RECV_SIZE, declare=20)[0]
+
+
+def l111():
+    ctxt = loop.new_ctxt(Tripwire(), None)
+    bl, host, blocked = sym_blocklist()
+    ctxt.setBlockList(bl)
+    ts = loop.twisted_mod.TwistedServer(ctxt, ('0.0.0.0', 1), install_signals=False)
+    ts.transport = loop.Transport()
+    raw = sym_datagram()
     q0 = len(ts.thread.queue)
     try:
-        ts.datagramReceived(raw, ('6.6.6.6', symint('port', 1, 65535)))
+        ts.datagramReceived(raw, (host, symint('port', 1, 65535)))
     except Exception as ex:
         core.fail('the datagram entry point raised', error=type(ex).__name__)
     if blocked:
@@ -56,11 +74,92 @@ def l111():
     if len(ts.thread.queue) > q0:
         addr, hdr, d = ts.thread.queue[-1]
         check(hdr.isServer is True or bool(hdr.isServer), 'only datagrams addressed to the server are queued')
+        check(addr[0] is host, 'the datagram is queued under the address it came from')
 
 
-R.add('L11.1', l111, [{}], desc='TwistedServer.datagramReceived on arbitrary bytes of any length up to the receive size, blocked or not',
-      expect=['a datagram from a block-listed address is discarded before any processing', 'the entry point never replies by itself'],
-      bounds='0..20 symbolic bytes | 20 symbolic + opaque rest up to RECV_SIZE | fully opaque of symbolic length')
+R.add('L11.1', l111, [{}], desc='TwistedServer.datagramReceived on arbitrary bytes of any length up to the receive size, from an arbitrary '
+                               'host string, with an arbitrary block list (two symbolic entries + one fixed)',
+      expect=['a datagram from a block-listed address is discarded before any processing', 'the entry point never replies by itself',
+              'only datagrams addressed to the server are queued'],
+      bounds='0..20 symbolic bytes | 20 symbolic + opaque rest up to RECV_SIZE | fully opaque of symbolic length; host and two '
+             'block-list entries arbitrary non-empty strings')
+
+
+# ------------------------------------------------------------------ L11.5 the socket receive loop (_UdpServer.run)
+class FakeThread:
+    """stands in for UdpServerThread behind the reference receive loop: records what is handed to the server thread"""
+    instances = []
+
+    def __init__(self, sock, ctxt):
+        self.queue = []
+        self.started = False
+        FakeThread.instances.append(self)
+
+    def start(self):
+        self.started = True
+
+    def append(self, addr, hdr, datagram):
+        self.queue.append((addr, hdr, datagram))
+
+
+def l115(n):
+    """the reference UDP receive loop: n datagrams (arbitrary bytes) from an arbitrary host, arbitrary block list"""
+    sm = loop.server_mod
+    ctxt = loop.new_ctxt(Tripwire(), None)
+    bl, host, blocked = sym_blocklist()
+    ctxt.setBlockList(bl)
+    inbox = [(sym_datagram() if k == 0 else rope.blob('later%d' % k, 0, Packet.RECV_SIZE, declare=20)[0],
+              (host, symint('port%d' % k, 1, 65535))) for k in range(n)]
+
+    class Sock:
+        def __init__(self, *a, **k):
+            self.sent = []
+
+        def setsockopt(self, *a):
+            pass
+
+        def bind(self, *a):
+            pass
+
+        def fileno(self):
+            return 3
+
+        def recvfrom(self, size):
+            if not inbox:
+                ctxt._active = False
+                raise ConnectionResetError('harness: end of traffic')
+            return inbox.pop(0)
+
+        def sendto(self, data, addr):
+            self.sent.append((data, addr))
+
+    class SockMod:
+        AF_INET, SOCK_DGRAM, SOL_SOCKET, SO_REUSEADDR = 2, 2, 1, 2
+        socket = Sock
+    saved = (sm.UdpServerThread, sm.socket)
+    FakeThread.instances.clear()
+    sm.UdpServerThread, sm.socket = FakeThread, SockMod
+    try:
+        srv = sm._UdpServer(ctxt, ('0.0.0.0', 1))
+        try:
+            srv.run()
+        except Exception as ex:
+            core.fail('the receive loop raised', error=type(ex).__name__)
+    finally:
+        sm.UdpServerThread, sm.socket = saved
+    check(inbox == [], 'the receive loop consumed every datagram (it was not stopped by one of them)')
+    th = FakeThread.instances[-1]
+    if blocked:
+        check(th.queue == [], 'datagrams from a block-listed address never reach the server thread')
+    check(srv.sock.sent == [], 'the receive loop never replies by itself')
+    check(all(a[0] is host for a, h, d in th.queue), 'datagrams are queued under the address they came from')
+
+
+R.add('L11.5', l115, lambda tier: [dict(n=1), dict(n=2)],
+      desc='_UdpServer.run (reference socket loop): arbitrary datagrams from an arbitrary host, arbitrary block list',
+      expect=['datagrams from a block-listed address never reach the server thread',
+              'the receive loop consumed every datagram (it was not stopped by one of them)'],
+      bounds='1 or 2 datagrams per run; host and two block-list entries arbitrary non-empty strings')
 
 
 # ------------------------------------------------------------------ L11.2 / L11.3 hostile traffic in the real loop
